@@ -24,7 +24,7 @@ structure InvB (cfg : Cfg) (s : St) : Prop where
   uniq : ∀ i i' k, (s.rpc i).held = some k → (s.rpc i').held = some k → i = i'
 
 theorem lookup_some {cfg : Cfg} {s : St} {st : Stanza} {j : Nat} (h : lookup cfg s st = some j) :
-    st.resp = true ∧ s.table st.id = some j ∧ cfg.kinds j = st.kind := by
+    st.resp = true ∧ s.table st.id = some j ∧ cfg.kinds j = st.kind ∧ nsMatch (cfg.spaces j) st.ns = true := by
   unfold lookup at h
   split at h
   · split at h
